@@ -18,7 +18,9 @@ RULE = ('histories of duty cycles / add_* / find_* on a full in-process client (
         'registration time + driver timeout, each hit exactly, one below and one above, plus small steps and large jumps; the driver heartbeat is '
         'kept fresh, left to age, set to 0 or negative; the client heartbeat counter appears late, moves, is reclaimed, changes key or type; '
         'ON_ERROR events for known / unknown registrations; a malformed stream uses clock values up to 2^64-1 (u64 overflow: debug panic, release wrap) '
-        'and non-monotone clocks. A history is non-trivial when at least one reading is within 1 of a live threshold; distinct = distinct histories')
+        'and non-monotone clocks; a further stream of histories (own random stream) draws the client id beyond 32 bits (2^31-1, 2^31, 2^32+5, 2^40, 2^62+9 ...: the '
+        'driver\'s 64-bit correlation counter, written into the ring trailer by the harness) with the heartbeat counter usually present, and requests destinations through all four '
+        'entry points (add_destination / remove_destination / add_rcv_destination / remove_rcv_destination) some time after the last duty cycle. A history is non-trivial when at least one reading is within 1 of a live threshold; distinct = distinct histories')
 ASSUMPTIONS = [
     'one clock reading per operation (the harness sets the clock before each call); the conductor is driven from one thread, as the agent does',
     'no resource (publication, subscription, image) is ever registered in these histories: the managed-resource registry is empty (C12 covers it); '
